@@ -37,6 +37,9 @@ pub struct ScanEditInput {
     pub run_seed: u64,
     #[serde(default)]
     pub sandbox: Option<String>,
+    /// the client names the workspace and its documents through a symlink to the root directory
+    #[serde(default)]
+    pub via_symlink: bool,
 }
 
 pub struct ScanEdit;
@@ -156,7 +159,8 @@ impl Scenario for ScanEdit {
             sim.shards = *rng.pick(&[1usize, 2, 4, 16]);
             sim.max_steps = keep;
         }
-        serde_json::to_value(ScanEditInput { spec, sim, file, buffer, kind: kind.into(), delay, aim, second, run_seed, sandbox: None }).unwrap()
+        let via_symlink = rng.chance(150);
+        serde_json::to_value(ScanEditInput { spec, sim, file, buffer, kind: kind.into(), delay, aim, second, run_seed, sandbox: None, via_symlink }).unwrap()
     }
 
     fn exec(&self, input: &Value) -> RunOut {
@@ -170,6 +174,10 @@ impl Scenario for ScanEdit {
         };
         let sb = Sandbox::acquire("c10", inp.run_seed, inp.sandbox.as_deref().map(Path::new));
         let root = inp.spec.materialise(&sb.root());
+        if inp.via_symlink {
+            let _ = std::os::unix::fs::symlink(&root, sb.root().join("wslink"));
+            out.count("fault.workspace_named_through_a_symlink", 1);
+        }
         let mut inp = inp;
         let mut k = 0;
         if let Some(aim) = inp.aim {
@@ -292,7 +300,9 @@ fn pilot(root: &Path, file: &str) -> Option<u64> {
 
 fn drive(root: &Path, inp: &ScanEditInput) -> Obs {
     let mut obs = Obs::default();
-    let mut srv = LspServer::start(root);
+    // (index lookups below use the canonical `root`; only what the client sends goes through the link)
+    let server_root = if inp.via_symlink { root.parent().map(|p| p.join("wslink")).unwrap_or_else(|| root.to_path_buf()) } else { root.to_path_buf() };
+    let mut srv = LspServer::start(&server_root);
     let id = srv.initialize();
     if srv.await_response(id, 200).is_none() {
         obs.failure = Some(format!("no response to initialize (panic: {:?})", srv.server_panic));
